@@ -301,8 +301,10 @@ fn histories(rep: &mut Report, depth: usize) {
         let mem = memfd("c15-mem", 0x10000);
         let log = new_log(1);
         let (mut has_a, mut has_b, mut logging) = (false, false, false);
+        // region (re)installed by a table message after the SET_LOG_BASE in force (known finding)
+        let (mut a_late, mut b_late) = (false, false);
         let case = json!({"check":"C15","part":"histories","seq": seq.iter().map(|i| format!("{:?}", ops[*i])).collect::<Vec<_>>()});
-        for (k, i) in seq.iter().enumerate() {
+        for i in seq.iter() {
             let mut failed = false;
             match ops[*i] {
                 HOp::LogBase => {
@@ -310,6 +312,8 @@ fn histories(rep: &mut Report, depth: usize) {
                     let out = h.req(SET_LOG_BASE, &p_log(4096, 4096), &[log.as_raw_fd()]);
                     if matches!(&out, ReqOut::Msg(d, _) if d.code == SET_LOG_BASE) {
                         logging = true;
+                        a_late = false;
+                        b_late = false;
                     } else {
                         failed = true;
                     }
@@ -318,6 +322,7 @@ fn histories(rep: &mut Report, depth: usize) {
                     Ok(true) => {
                         has_a = true;
                         has_b = false;
+                        a_late = logging;
                     }
                     _ => failed = true,
                 },
@@ -325,13 +330,18 @@ fn histories(rep: &mut Report, depth: usize) {
                     Ok(true) => {
                         has_a = true;
                         has_b = true;
+                        a_late = logging;
+                        b_late = logging;
                     }
                     _ => failed = true,
                 },
                 HOp::AddB => {
                     let r = Region { gpa: b.0, size: b.1, user: USER + b.0, offset: 0x4000 };
                     match h.ack(ADD_MEM_REG, &p_single_region(&r), &[mem.as_raw_fd()]) {
-                        Ok(true) => has_b = true,
+                        Ok(true) => {
+                            has_b = true;
+                            b_late = logging;
+                        }
                         _ => failed = true,
                     }
                 }
@@ -360,7 +370,7 @@ fn histories(rep: &mut Report, depth: usize) {
                     } else if win != want.as_slice() {
                         rep.outcome("logging-not-in-force");
                         rep.violation(
-                            &format!("C15:history:write-not-logged:{}", if k == seq.len() - 1 && seq[..k].iter().rev().take_while(|j| ops[**j] != HOp::LogBase).any(|j| matches!(ops[*j], HOp::TableA | HOp::TableAB | HOp::AddB)) { "region-installed-after-set_log_base" } else { "other" }),
+                            &format!("C15:history:write-not-logged:{}", if (is_a && a_late) || (!is_a && b_late) { "region-installed-after-set_log_base" } else { "other" }),
                             &format!("history {:?}: write at {gpa:#x} left log byte 0 = {:#04x}, expected {:#04x}", seq.iter().map(|i| format!("{:?}", ops[*i])).collect::<Vec<_>>(), win[0], want[0]),
                             case.clone(),
                         );
